@@ -468,6 +468,10 @@ def rule_rec_once(ctx):
     for name, fi in sorted(ci.methods.items()):
         if name in NON_RECORDING or fi.kind == 'property':
             continue
+        if name.startswith('_') and not name.startswith('__'):
+            # private helpers are not part of the overloaded API; one that records is expanded into its callers
+            # (Model._inline_recording_helpers) or, if it cannot be, shows up as a caller that does not record
+            continue
         if name in tp.OUTSIDE_API:
             r.note('Function.%s: %s' % (name, tp.OUTSIDE_API[name]))
             continue
@@ -503,7 +507,7 @@ def rule_rec_once(ctx):
         c = calls[0]
         star = [a for a in c.args if isinstance(a, ast.Starred)]
         kw = [k for k in c.keywords if k.arg is None]
-        if len(star) == 1 and norm(star[0].value) == 'args' and len(kw) == 1 and norm(kw[0].value) == 'Fkwargs':
+        if len(star) == 1 and isinstance(star[0].value, ast.Name) and len(kw) == 1 and norm(kw[0].value) == 'Fkwargs':
             r.ok(construct='pushforward:call', nontrivial=True, sample='Function.pushforward calls `%s` once' % norm(c))
         else:
             r.bad(Finding('R-rec-once', _f(fpf), 'call-shape', 'the operation is not called as func(*args, **Fkwargs): `%s`' % norm(c), fpf.file, c.lineno))
@@ -658,7 +662,12 @@ def rule_rec_same(ctx):
         c = [c for c in ast.walk(lp) if isinstance(c, ast.Call) and isinstance(c.func, ast.Attribute) and c.func.attr == 'pushforward'][0]
         a = [norm(x) for x in c.args]
         kw = {k.arg: norm(k.value) for k in c.keywords}
-        node = si[2] if si is not None else '?'
+        if si is not None:
+            node = si[2]
+        elif isinstance(lp.target, ast.Tuple):
+            node = norm(lp.target.elts[-1])
+        else:
+            node = norm(lp.target)
         if a[:2] == [node + '.func', node + '.args'] and kw.get('Fout') == node:
             r.ok(construct='replay-call', nontrivial=True, sample='replay call `%s`' % norm(c))
         else:
@@ -740,9 +749,7 @@ def rule_rec_name(ctx):
         if disp.generated:
             ok = m.lookup_method('UTPM', got) is not None
         else:
-            txt = norm(disp.node)
-            ok = ('UTPM.%s' % got in txt) or ('.__class__.%s' % got in txt) or ('x.%s(' % got in txt) or ('hasattr(x.__class__, \'%s\')' % got in txt)
-            ok = ok and m.lookup_method('UTPM', got) is not None
+            ok = got in tp.class_dispatch_targets(disp) and m.lookup_method('UTPM', got) is not None
         if ok:
             r.ok(construct=fi.qualname, nontrivial=True,
                  sample='Function.%s records %s -> %s -> UTPM.%s' % (fi.name, cal, disp.fq, got))
@@ -775,6 +782,9 @@ KERNEL_ENTRY = {'_broadcast_arrays', '_mul', '_minimum', '_maximum', '_amul', '_
                 '_hyperu', '_hyp2f0', '_hyp0f1', '_polygamma', '_psi', '_gammaln', '_dot', '_dot_non_UTPM_y', '_dot_non_UTPM_x', '_outer',
                 '_outer_non_utpm_y', '_outer_non_utpm_x', '_inv', '_solve', '_solve_non_UTPM_A', '_solve_non_UTPM_x', '_cholesky', '_ndim',
                 '_shape', '_reshape', '_iouter', '_qr', '_qr_rectangular', '_qr_full', '_eigh', '_eigh1', '_mul_non_UTPM_x', '_transpose', '_diag'}
+# private module-level functions of today's tree that are used as entry points by the kernels (checked as such)
+MODULE_PRIVATE_ENTRY = {'_plus_const', '_eval_slow_generic', '_black_f_white_fprime', '_taylor_polynomials_of_ode_solutions',
+                        '_expm_pade3', '_expm_pade5', '_expm_pade7', '_expm_pade9', '_expm_pade13'}
 ENTRY_MODULES = ['algopy.globalfuncs', 'algopy.linalg.linalg', 'algopy.linalg.compound', 'algopy.special.special',
                  'algopy.fft.fft', 'algopy.utils', 'algopy.exact_interpolation', 'algopy.utpm.algorithms',
                  'algopy.utpm.utpm', 'algopy.compound']
@@ -789,6 +799,8 @@ def entry_points(ctx):
     for modname in ENTRY_MODULES:
         mi = m.module(modname)
         for fi in mi.functions.values():
+            if fi.name.startswith('_') and not fi.name.startswith('__') and fi.name not in MODULE_PRIVATE_ENTRY:
+                continue            # private module-level helper: reached through the summaries of its public callers
             out.append(fi)
             for nf in getattr(fi, 'nested', {}).values():
                 out.append(nf)
